@@ -777,5 +777,8 @@ func init() {
 	Register(&Scenario{Prop: "C05", Name: "never-settling-consumer", Setup: gcSetup(c05d), Body: gcBody(c05d), Real: gcReal, Stubs: gcStubs, Weight: 1})
 
 	c11 := gcOpts{prop: "C11", persistent: 1, lateSubs: true, fine: true}
-	Register(&Scenario{Prop: "C11", Name: "persistent-replay", Setup: gcSetup(c11), Body: gcBody(c11), Real: gcReal, Stubs: gcStubs})
+	Register(&Scenario{Prop: "C11", Name: "persistent-replay", Setup: gcSetup(c11), Body: gcBody(c11), Real: gcReal, Stubs: gcStubs, Weight: 2})
+	// sibling subscriptions that come and go (cancelled ones are exempt) must not disturb the exactly-once replay of the others
+	c11b := gcOpts{prop: "C11", persistent: 1, lateSubs: true, fine: true, cancels: true, subChurn: true}
+	Register(&Scenario{Prop: "C11", Name: "persistent-replay-with-churn", Setup: gcSetup(c11b), Body: gcBody(c11b), Real: gcReal, Stubs: gcStubs, Weight: 1})
 }
